@@ -51,6 +51,23 @@ static inline struct timer_mgr *xv_tm_any(void)
     xv_gt.next = t->next_timer_id; xv_gt.fd = t->timer_fd; xv_gt.reg_id = t->timer_fd_reg_id;
     return t;
 }
+/* the back links of the list, checked in CODE after the call (see TM_LINKS in contracts/timerdns.h) */
+static inline _Bool xv_tm_links_ok(struct timer_mgr *t)
+{
+    struct mtimer *a = t->mtimers.lh_first;
+    if (a == NULL) return 1;
+    if (a->entry.le_prev != &t->mtimers.lh_first) return 0;
+    struct mtimer *b = a->entry.le_next;
+    if (b == NULL) return 1;
+    if (b->entry.le_prev != &a->entry.le_next) return 0;
+    struct mtimer *c = b->entry.le_next;
+    if (c == NULL) return 1;
+    if (c->entry.le_prev != &b->entry.le_next) return 0;
+    struct mtimer *d = c->entry.le_next;
+    if (d == NULL) return 1;
+    if (d->entry.le_prev != &c->entry.le_next) return 0;
+    return d->entry.le_next == NULL;
+}
 static inline int64_t *xv_idp_any(void)
 {
     int64_t *p = malloc(sizeof(int64_t));
